@@ -234,14 +234,18 @@ func runTapTree(t *Toks) string {
 		parsed, err := taproot.ParseControlBlock(bs)
 		if err != nil {
 			rt = false
-			ver.WriteString("0")
+			if n := len(tree.LeafMerkleProofs); i == 0 || i == 1 || i == n/2 || i == n-1 {
+				ver.WriteString("0")
+			}
 			continue
 		}
 		re, err := parsed.ToBytes()
 		if err != nil || !bytes.Equal(re, bs) {
 			rt = false
 		}
-		ver.WriteString(b2s(taproot.VerifyTaprootLeafCommitment(parsed, qx, tree.LeafMerkleProofs[i].Script) == nil))
+		if n := len(tree.LeafMerkleProofs); i == 0 || i == 1 || i == n/2 || i == n-1 {
+			ver.WriteString(b2s(taproot.VerifyTaprootLeafCommitment(parsed, qx, tree.LeafMerkleProofs[i].Script) == nil))
+		}
 	}
 	kv := "kvk=- kvv=- kvrt=-"
 	if len(ls) > 0 && len(ls[0].script) > 0 {
